@@ -63,6 +63,8 @@ func init() {
 		if cl := cli(c); cl != nil {
 			gen.CheckAllOrNothingCLI(c.Run, c.Prog, cl)
 		}
+		// an unloadable package is a failure, whatever its errors say
+		gen.CheckLoadErrorsFatal(c.Run, c.Prog)
 		c.Run.Floor("G-CLI/errors", 4)
 		c.Run.Floor("G-MOCK/write-once", 1)
 		c.RunSkeletons(SkelOpts{Rules: []string{"G-MOCK", "G-FORMAT"}, Env: smallEnv, Formatters: tmpl.Formatters, NoExpand: true})
